@@ -8,6 +8,8 @@ structure St where
   s : RegSpec.State := []
   /-- `static traits` of metatype::basic::pointer_traits() (C++ part) -/
   basic : Option Named := none
+  /-- the entry `mpt_rawdata_type_traits()` (mptplot) registered and caches -/
+  raw : Option Named := none
 
 def sweepMax : Nat := 0x1100
 
@@ -82,7 +84,7 @@ def sweepModel (r : Reg) : String :=
   let t := listing fun id => (traits r id).map attrTextT
   let n := namesListing fun id =>
     if id ≤ TypeId._TypeInterfaceMax then (interfaceTraits r id).map (·.name) else (metatypeTraits r id).map (·.name)
-  s!"traits={t} names={n}"
+  s!"traits={t} names={n} moved=-"
 
 /-- `descOf s` / `namedOf s` for all ids at once (one pass over the history instead of one search per id;
     ids are unique, the first entry of an id wins as in `List.find?`) -/
@@ -100,7 +102,7 @@ def sweepSpec (s : RegSpec.State) : String :=
     match tab.getD id none with
     | some e => if e.kind.named then some e.name else none
     | none => (namedOf [] (id ≤ TypeId._TypeInterfaceMax) id).map (·.1)
-  s!"traits={t} names={n}"
+  s!"traits={t} names={n} moved=-"
 
 def fmtNamed : Option Named → String
   | some e => s!"found id={e.id} name={hexName e.name} {fmtTraits e.traits}"
@@ -196,7 +198,10 @@ def stepT (st : St) (w : List String) : St × String :=
         let endOff := match sepAt with
           | some k => k + 1 + ((desc.drop (k + 1)).takeWhile isSpaceC).length
           | none => desc.length
-        let cands := [lookupName st.s key (-1), lookupName st.s key key.length]
+        -- without a separator the description is a name: the alias lookup has to agree with the whole-string lookup of the
+        -- registry (short forms included); in front of a separator either reading of a short form is allowed
+        let cands := if sepAt.isNone then [lookupName st.s key (-1)]
+          else [lookupName st.s key (-1), lookupName st.s key key.length]
         let endTxt := if kind = "alias0" then "-1" else toString endOff
         let oks := (cands.filterMap id).eraseDups.map fun i => s!"id={i} end={endTxt} ; *"
         let alts := " || ".intercalate (oks ++ (if cands.any (·.isNone) ∨ key = [] then ["refused ; *"] else []))
@@ -266,6 +271,21 @@ def stepT (st : St) (w : List String) : St × String :=
       (st, s!"R {fmtNamed (namedTraits st.r name len)} | C - | I - | S {specNamed st.s (lookupName st.s name len)} ; *")
     | _, _ => (st, "bad-op")
   | ["t", "reset"] => ({}, "R ok | C - | I - | S ok ; *")
+  | ["t", "rawdata"] =>
+    -- `mpt_rawdata_type_traits()`: registers the interface "mpt.rawdata" on first use and hands the same entry out from then on
+    let name : Name := [109, 112, 116, 46, 114, 97, 119, 100, 97, 116, 97]
+    match st.raw with
+    | some e =>
+      let l := s!"ok fresh=same range=yes name={hexName e.name} {fmtTraits e.traits}"
+      (st, s!"R {l} | C id={e.id} | I - | S ok fresh=same range=yes name={hexName e.name} {fmtDesc ptrDesc} ; *")
+    | none =>
+      let alts := altsAdd st.s .iface (some name) [ptrDesc] true
+      match ifaceAdd st.r (some name) with
+      | (r', some e) =>
+        let fresh := !issuedBefore st.s e.id
+        ({ st with r := r', raw := some e, s := st.s ++ [{ kind := .iface, id := e.id, name := some name, desc := ptrDesc }] },
+          s!"R ok fresh={yn fresh} range={yn (inRangeK .iface e.id)} name={hexName e.name} {fmtTraits e.traits} | C id={e.id} | I - | S {alts}")
+      | (_, none) => (st, s!"R refused | C - | I - | S {alts}")
   | ["t", "sweep"] =>
     (st, s!"R {sweepModel st.r} | C - | I - | S {sweepSpec st.s} ; *")
   | ["t", "abi"] =>
